@@ -147,6 +147,9 @@ class UDP6EndpointAddress(interfaces.EndpointAddress):
         return hash(self.sockaddr[:-1])
 
     def __eq__(self, other):
+        if not isinstance(other, UDP6EndpointAddress):
+            # eg. None, as used in the token manager's keys of multicast requests
+            return NotImplemented
         return self.sockaddr[:-1] == other.sockaddr[:-1]
 
     def __repr__(self):
